@@ -322,6 +322,11 @@ def put_model(mjm: mujoco.MjModel, batch_sizes: dict[str, int] | None = None) ->
   if mjm.opt.noslip_iterations > 0:
     raise NotImplementedError(f"noslip solver not implemented.")
 
+  if mjm.nu and mjm.opt.disableactuator:
+    disabled = (mjm.opt.disableactuator >> np.clip(mjm.actuator_group, 0, 30)) & 1
+    if (disabled & (mjm.actuator_group >= 0) & (mjm.actuator_group <= 30)).any():
+      raise NotImplementedError("actuatorgroupdisable (opt.disableactuator) is not supported.")
+
   if (mjm.body_plugin != -1).any():
     raise NotImplementedError("Body plugins not supported.")
 
